@@ -340,12 +340,24 @@ void Ruleset::registerRunnableRulesetForCgroupPath(
   auto action_group = std::vector<std::unique_ptr<BasePlugin>>();
   action_group.reserve(action_group_.size());
   for (auto it = action_group_.begin(); it != action_group_.end(); ++it) {
-    auto plugin = registry.create(it->get()->getName());
-    plugin->setName(it->get()->getName());
-    auto args = it->get()->getPluginArgs();
+    const auto& name = it->get()->getName();
+    const auto& configured_args = it->get()->getPluginArgs();
+    const PluginConstructionContext compile_context(cgroup.cgroupFs());
+    auto args = configured_args;
     args.try_emplace("cgroup", cgroup.relativePath());
-    plugin->init(args, PluginConstructionContext(cgroup.cgroupFs()));
-    action_group.emplace_back(plugin);
+    std::unique_ptr<BasePlugin> plugin(registry.create(name));
+    plugin->setName(name);
+    if (plugin->init(args, compile_context) != 0 &&
+        args.size() != configured_args.size()) {
+      // Not every action takes a cgroup (e.g. systemd_restart). The argument
+      // parser refuses the injected one and may stop before it has seen the
+      // configured arguments (dry, service, ...), so such an action is set up
+      // exactly as configured instead.
+      plugin.reset(registry.create(name));
+      plugin->setName(name);
+      plugin->init(configured_args, compile_context);
+    }
+    action_group.emplace_back(std::move(plugin));
   }
   auto ruleset = std::make_unique<Ruleset>(
       name_,
